@@ -573,6 +573,11 @@ def run_check(cls, argv=None):
         pid, "OK" if rc == 0 else "FAIL", args.tier, seed, discharged, obligations, evaluations, len(nontriv),
         len(disagreements), len(failures), wall))
     if rc != 0:
+        hist = {}
+        for c, f in failures:
+            hist[f.get("key", "")] = hist.get(f.get("key", ""), 0) + 1
+        if hist:
+            print("  failure keys:", json.dumps(hist, sort_keys=True))
         for b in (unexplained or broken)[:5]:
             print("  broken:", b[0], b[1], "|", b[2][:800].replace("\n", "\n    "))
         for c, f in unlisted[:3]:
